@@ -968,7 +968,7 @@ def grid_resample(
     mode = Sampling.from_arg(mode).interpolate_mode(D)
     input_grid = Grid(shape=data.shape[2:], spacing=in_spacing)
     output_grid = input_grid.resample(out_spacing)
-    if output_grid.shape == input_grid.shape:
+    if output_grid == input_grid:
         return data
     align_corners = input_grid.align_corners()
     axes = Axes.from_align_corners(align_corners)
